@@ -454,9 +454,36 @@ def gen_json(v):
 # generators
 KEYS = ["a", "b", "ab", "abc", "a/b", "m~n", "0", "1", "01", "-", "k é", "x\"y", "value", "op", "path", "foo"]
 STRS = ["", "s", "str", "a/b", "é", "two words", "q\"uote", "back\\slash", "tab\there", "line\nfeed", "0", "~"]
-INTS = [0, 1, -1, 2, 7, 42, 127, 128, -129, 65536, 2147483647, -2147483648, 4294967296, 9007199254740993,
-        (1 << 63) - 1, -(1 << 63) + 1]     # INT64_MIN itself leaves errno = ERANGE behind in the text parser (C17)
+I64_MIN, I64_MAX = -(1 << 63), (1 << 63) - 1
+# integers at the places where C integer handling goes wrong (int / uint32 / double-mantissa / int64 limits); pairs of them differ
+# by 2^31, 2^32, k*2^32, 2^53, 2^63
+INTS = [0, 1, -1, 2, 7, 42, 127, 128, -129, 65536, 2147483647, 2147483648, -2147483648, -2147483649, 4294967295, 4294967296,
+        4294967297, -4294967296, -4294967295, 8589934592, 8589934594, 1 << 53, (1 << 53) + 1, -(1 << 53), 1 << 62, I64_MAX, I64_MAX - 1, I64_MIN + 1, I64_MIN]
 FLTS = [0.5, 1.5, -2.5, 100.5, 1e10 + 0.5]
+# doubles whose JSON text (python repr) iwstrtod and OCaml's float_of_string read to the same bits (checked one by one: iwstrtod is
+# not correctly rounded, 0.75 / 0.3 / 1e23 come out one ulp off - C13's subject, kept out of here)
+DBLS = [0.5, -0.5, 0.25, 1.25, 1.75, 1.5, 2.5, -2.5, 100.25, 100.5, 0.125, 65536.5, 2147483648.5, 4294967296.5, 4294967297.5,
+        8589934592.5, 1e10 + 0.5, 1e10 + 1.5, 9007199254740992.0, 9007199254740994.0, 1e20, 1e21, 1e22, 1e300, 1e301, 1.5e300,
+        1e-8, 2e-8, 1e-7, 0.1, 0.2, 3.14, 0.0, 1.0, 2.0, -1.0, -3.0, 42.0, 4294967296.0, -4294967296.0, 9223372036854775808.0,
+        18446744073709551616.0, 1e10]
+# pairs of different doubles a comparison by difference / by text / by integer part gets wrong
+DBL_NEAR = [(0.5, -0.5), (2.5, -2.5), (0.25, 0.5), (1.25, 1.75), (1.25, 1.5), (100.25, 100.5), (0.125, 0.25), (0.5, 4294967296.5),
+            (0.5, 2147483648.5), (4294967296.5, 4294967297.5), (4294967296.5, 8589934592.5), (0.5, 8589934592.5),
+            (1e10 + 0.5, 1e10 + 1.5), (1e10, 1e10 + 0.5), (9007199254740992.0, 9007199254740994.0), (1e20, 1e21), (1e21, 1e22),
+            (1e22, 1e300), (1e300, 1e301), (1e300, 1.5e300), (1e-8, 2e-8), (1e-8, 1e-7), (0.0, 1e-8), (0.1, 0.2), (1.0, 2.0),
+            (1.0, -1.0), (0.0, 4294967296.0), (4294967296.0, -4294967296.0), (9223372036854775808.0, 18446744073709551616.0),
+            (1.0, 1.25), (42.0, 100.5), (-3.0, 3.14)]
+# an integer and the double with the same value (the library compares types first: documented reading, oracle class `lenient`)
+INT_DBL = {0: 0.0, 1: 1.0, 2: 2.0, -1: -1.0, -3: -3.0, 42: 42.0, 4294967296: 4294967296.0, -4294967296: -4294967296.0,
+           1 << 53: 9007199254740992.0}
+
+# Input classes on which the unmodified library is known to contradict RFC 6902 (notes/jpatch.md, "Open findings").  They are
+# generated only when named in VERIF_JPATCH_OPEN (comma separated, or "all"); then the oracle reports them as violations.
+OPEN_CLASSES = ("f64-text-compare", "nul-in-string")
+_open_env = [x for x in os.environ.get("VERIF_JPATCH_OPEN", "").split(",") if x]
+OPEN_ON = set(OPEN_CLASSES)   # both defects are repaired in /repo (ef0c81e, e38ce78): the classes are generated on every run
+DBL_NEAR_OPEN = [(0.5, 0.500000001), (1e-9, 2e-9), (0.0, 1e-9)]      # equal in "%.8Lf" text; and 0.0 / -0.0 differ in it
+STR_NEAR_OPEN = [("a\x00b", "a\x00c"), ("\x00a", "\x00b"),("x\x00yz", "x\x00zy")]   # same length, equal up to a 0 byte
 
 
 def gen_scalar(rng):
@@ -622,40 +649,244 @@ def gen_program(rng, doc, run=None):
     return ops
 
 
+def int_near(rng, v):
+    """an int64 different from v, placed where C integer handling of a comparison goes wrong: same low 32 bits (difference
+    k*2^32), difference 2^31 / 2^32-1 (sign of a truncated difference), beyond the double mantissa, sign flips, int64 limits"""
+    k = rng.weighted([("m32", 7), ("p31", 2), ("big", 2), ("sign", 2), ("words", 2), ("small", 3)])
+    if k == "m32":
+        m = rng.choice([1, 2, 3, 5, 255, 256, 65535, 65536, 1 << 20, 1 << 30, (1 << 31) - 1, 1 << 31]) << 32
+        c = [v + m, v - m]
+    elif k == "p31":
+        d = rng.choice([1 << 31, (1 << 31) - 1, (1 << 31) + 1, (1 << 32) - 1, (1 << 32) + 1, 1 << 16, 1 << 8, 1 << 33])
+        c = [v + d, v - d]
+    elif k == "big":
+        d = rng.choice([1 << 52, 1 << 53, (1 << 53) + 1, 1 << 62, 1 << 63, (1 << 63) - 1, (1 << 64) - 1])
+        c = [v + d, v - d]
+    elif k == "sign":
+        c = [-v, ~v, v + (1 << 63), v - (1 << 63), I64_MAX - v if v >= 0 else I64_MIN - v]
+    elif k == "words":          # keep one 32-bit half, change / drop the other
+        lo, hi = v & 0xffffffff, v >> 32
+        c = [lo, lo - (1 << 32) if lo >= 1 << 31 else lo + (1 << 32), hi, hi << 32, (lo << 32) | (hi & 0xffffffff),
+             v ^ 0xffffffff00000000, (v ^ 0xffffffff00000000) - (1 << 64)]
+    else:
+        d = rng.choice([1, 2, 10, 256])
+        c = [v + d, v - d]
+    c = [x for x in c if I64_MIN <= x <= I64_MAX and x != v]
+    if c:
+        return rng.choice(c)
+    return v + 1 if v < I64_MAX else v - 1
+
+
+def dbl_near(rng, v):
+    c = [b if a == v else a for a, b in DBL_NEAR + (DBL_NEAR_OPEN if "f64-text-compare" in OPEN_ON else []) if v in (a, b)]
+    if c and rng.chance(4, 5):
+        return rng.choice(c)
+    w = rng.choice(DBLS)
+    return w if w != v else (1.5 if v != 1.5 else 2.5)
+
+
+def str_near(rng, v):
+    if "nul-in-string" in OPEN_ON:
+        for a, b in STR_NEAR_OPEN:
+            if v in (a, b):
+                return b if v == a else a
+    r = rng.below(8)
+    if not v:
+        return rng.choice(["x", " ", "0", "\u00e9"])
+    if r == 0:
+        return v + rng.choice(["x", " "])
+    if r == 1:
+        return v[:-1]
+    if r == 2:          # same length, last / first byte differs
+        return v[:-1] + ("y" if v[-1] != "y" else "z")
+    if r == 3:
+        return ("Y" if v[0] != "Y" else "Z") + v[1:]
+    if r == 4:          # lengths differ by 256 / 65536: a length difference cut to a char or a short is 0
+        return v + "x" * rng.choice([256, 256, 512, 65536])
+    if r == 5:          # differs in a byte >= 0x80 only
+        return v[:-1] + ("\u00e9" if v[-1] != "\u00e9" else "\u00e8")
+    if r == 6:
+        return v.swapcase() if v.swapcase() != v else v + v
+    return v[::-1] if v[::-1] != v else v + "\u00e8"
+
+
 def mutated(rng, v):
     """a value that differs from v in one place deep inside (same shape otherwise)"""
     if isinstance(v, dict) and v:
         k = rng.choice(list(v.keys()))
-        r = rng.below(4)
+        r = rng.below(8)
         if r == 0:
             return {kk: vv for kk, vv in v.items() if kk != k}
         if r == 1:
             out = dict(v)
             out[k + "x"] = out.pop(k)
             return out
+        if r == 2:          # same-length member name: the sort by (length, bytes) pairs it with the same position
+            nk = k[:-1] + ("y" if k[-1:] != "y" else "z") if k else "~"
+            if nk not in v:
+                return {(nk if kk == k else kk): vv for kk, vv in v.items()}
+        if r == 3 and len(v) >= 2:          # same names, same multiset of values, two values exchanged
+            k2 = rng.choice([kk for kk in v if kk != k])
+            if gen_json(v[k]) != gen_json(v[k2]):
+                return {kk: (v[k2] if kk == k else v[k] if kk == k2 else vv) for kk, vv in v.items()}
+        if r == 4 and "zz" not in v:
+            out = dict(v)
+            out["zz"] = None
+            return out
         return {kk: (mutated(rng, vv) if kk == k else vv) for kk, vv in v.items()}
     if isinstance(v, list) and v:
         i = rng.below(len(v))
-        r = rng.below(4)
+        r = rng.below(6)
         if r == 0:
             return v[:i] + v[i + 1:]
         if r == 1 and len(v) > 1:
             w = list(v)
             w[0], w[-1] = w[-1], w[0]
-            return w if w != v else v + [None]
+            return w if gen_json(w) != gen_json(v) else v + [None]
+        if r == 2:
+            return v + [v[i]]
         return [mutated(rng, x) if j == i else x for j, x in enumerate(v)]
     if isinstance(v, bool):
-        return not v
+        return rng.choice([not v, not v, int(v), "true" if v else "false", None if not v else 1.0])
     if isinstance(v, int):
-        w = v + rng.choice([1, -1, 256])
-        return w if -(1 << 63) < w < (1 << 63) else v // 2
+        r = rng.below(10)
+        if r == 0:
+            return str(v)
+        if r == 1:
+            return v != 0 if v in (0, 1) else [v]
+        return int_near(rng, v)
     if isinstance(v, float):
-        return v + 1.0
+        if rng.chance(1, 8):
+            return rng.choice([repr(v), [v], int(v) + 1 if abs(v) < 1e15 else 0])
+        return dbl_near(rng, v)
     if isinstance(v, str):
-        return v + rng.choice(["x", " "]) if rng.chance(1, 2) or not v else v[:-1]
+        if v.isascii() and v.isdigit() and rng.chance(1, 4):
+            return int(v)
+        return str_near(rng, v)
     if v is None:
-        return rng.choice([False, 0, "", [], {}])
-    return rng.choice([None, 1, "m"])      # empty containers
+        return rng.choice([False, 0, "", [], {}, "null", 0.0])
+    return rng.choice([None, 1, "m", [] if isinstance(v, dict) else {}, [[]], {"a": {}}])      # empty containers
+
+
+def same_number(rng, v):
+    """v with one number written in the other form (1 <-> 1.0): equal for rfc6902, the library compares the types first"""
+    locs = [(p, x) for p, x in all_paths(v) if not isinstance(x, bool) and
+            ((isinstance(x, int) and x in INT_DBL) or (isinstance(x, float) and x in INT_DBL.values()))]
+    if not locs:
+        return None
+    p, x = rng.choice(locs)
+    y = INT_DBL[x] if isinstance(x, int) else [i for i, d in INT_DBL.items() if d == x][0]
+
+    def put(w, pre):
+        if pre == p:
+            return y
+        if isinstance(w, dict):
+            return {k: put(z, pre + "/" + esc(k)) for k, z in w.items()}
+        if isinstance(w, list):
+            return [put(z, pre + "/" + str(i)) for i, z in enumerate(w)]
+        return w
+    return put(v, "")
+
+
+def eq_scalar(rng):
+    k = rng.weighted([("i", 6), ("d", 3), ("s", 2), ("b", 1), ("n", 1)])
+    if k == "i":
+        return rng.choice(INTS) if rng.chance(3, 4) else rng.range(-3, 12)
+    if k == "d":
+        if "f64-text-compare" in OPEN_ON and rng.chance(1, 3):
+            return rng.choice(DBL_NEAR_OPEN)[0]
+        return rng.choice(DBLS)
+    if k == "s":
+        if "nul-in-string" in OPEN_ON and rng.chance(1, 2):
+            return rng.choice(STR_NEAR_OPEN)[0]
+        return rng.choice(STRS)
+    if k == "b":
+        return rng.chance(1, 2)
+    return None
+
+
+def eq_value(rng, depth):
+    """a value whose leaves sit at the boundaries above, to be compared by `test`"""
+    k = rng.weighted([("s", 4), ("a", 3 if depth > 0 else 0), ("o", 3 if depth > 0 else 0)])
+    if k == "s":
+        return eq_scalar(rng)
+    n = rng.weighted([(1, 3), (2, 3), (3, 2), (4, 1)])
+    if k == "a":
+        return [eq_value(rng, depth - 1) for _ in range(n)]
+    out = {}
+    for _ in range(n):
+        out[rng.choice(KEYS + (["k\x00a"] * 4 if "nul-in-string" in OPEN_ON else []))] = eq_value(rng, depth - 1)
+    return out
+
+
+def eq_pair(rng, v):
+    """(w, kind): w to be compared with v - a near miss, the same value (members reordered), or another form of a number"""
+    r = rng.below(20)
+    if "f64-text-compare" in OPEN_ON and isinstance(v, float) and v == 0.0 and r < 10:
+        return -v, "same"
+    if r < 14:
+        w = mutated(rng, v)
+        if gen_json(w) != gen_json(v):
+            return w, "near"
+    elif r < 17:
+        w = same_number(rng, v)
+        if w is not None:
+            return w, "form"
+    return (shuffled(rng, v) if rng.chance(2, 3) else v), "same"
+
+
+def gen_eq_case(rng):
+    """document holding a boundary value at some depth; patch = [optional harmless op,] test <near miss | equal>, modifying op.
+    A `test` that passes wrongly makes the following operation visible in the tree and in the binary form."""
+    v = eq_value(rng, rng.choice([0, 0, 1, 1, 2]))
+    place = rng.weighted([("member", 4), ("item", 2), ("deep", 3), ("root", 1 if isinstance(v, (list, dict)) else 0), ("head", 1)])
+    if place == "member":
+        doc, path = {"rev": v, "state": "draft"}, "/rev"
+    elif place == "item":
+        doc, path = {"items": [10, v, 30]}, "/items/1"
+    elif place == "deep":
+        doc, path = {"o": {"in": [{"id": v}], "z": 0}, "k": [1]}, "/o/in/0/id"
+    elif place == "head":
+        doc, path = [v, "t"], "/0"
+    else:
+        doc, path = v, ""
+    w, kind = eq_pair(rng, v)
+    ops = []
+    if rng.chance(1, 4) and isinstance(doc, dict):
+        ops.append({"op": "add", "path": "/pre", "value": rng.choice(INTS)})
+    ops.append({"op": "test", "path": path, "value": w})
+    m = rng.below(4)
+    if m == 0 and path:
+        ops.append({"op": "remove", "path": path})
+    elif m == 1 and path:
+        ops.append({"op": "replace", "path": path, "value": eq_scalar(rng)})
+    elif isinstance(doc, dict):
+        ops.append({"op": "add", "path": "/state", "value": "published"})
+    else:
+        ops.append({"op": "add", "path": "/-", "value": "published"})
+    if rng.chance(1, 5):
+        ops.append({"op": "test", "path": path, "value": w})
+    return doc, ops, kind
+
+
+def open_class(*texts):
+    """the open-finding class (OPEN_CLASSES) a case falls into, judged from its JSON texts; None = none"""
+    t = " ".join(texts)
+    if "\\u0000" in t:
+        return "nul-in-string"
+    if re.search(r"-0(\.0+)?(?![0-9.eE])", t) or re.search(r"-0(\.0+)?[eE]", t):
+        return "f64-text-compare"
+    ds = {}
+    for m in re.finditer(r"-?\d+\.\d+(?:[eE][-+]?\d+)?|-?\d+[eE][-+]?\d+", t):
+        try:
+            x = float(m.group(0))
+        except ValueError:
+            continue
+        if abs(x) < 1e21:
+            ds.setdefault("%.8f" % x, set()).add(x)
+    if any(len(g) > 1 for g in ds.values()):
+        return "f64-text-compare"
+    return None
 
 
 def shuffled(rng, v):
@@ -728,15 +959,38 @@ def check(run):
             r = json.loads(l)
             cases.append((json.dumps(r["doc"], ensure_ascii=False, separators=(",", ":")),
                           json.dumps(r["patch"], ensure_ascii=False, separators=(",", ":")), r["doc"], r["patch"], "corpus"))
+    if os.environ.get("VERIF_NO_CORPUS"):       # debugging aid: judge the generators alone
+        cases = []
+
+    def admit(dt, pt):      # classes the unmodified library is known to get wrong are generated only on request
+        c = open_class(dt, pt)
+        return c is None or c in OPEN_ON
     for _ in range(N):
         doc = gen_value(rng, 3, want=rng.choice(["a", "o", "o"]))
         prog = gen_program(rng, doc)
-        cases.append((gen_json(doc), gen_json(prog), doc, prog, "gen"))
+        if admit(gen_json(doc), gen_json(prog)):
+            cases.append((gen_json(doc), gen_json(prog), doc, prog, "gen"))
+    # equality of `test` at the boundaries of C number/string handling, followed by a modifying operation
+    for _ in range((N * 3) // 4):
+        doc, prog, kind = gen_eq_case(rng)
+        if admit(gen_json(doc), gen_json(prog)):
+            cases.append((gen_json(doc), gen_json(prog), doc, prog, "eq-" + kind))
+    # the same equality asked directly (jbn_compare_nodes == 0, both argument orders)
+    pairs = []
+    for _ in range(N * 2):
+        a = eq_value(rng, rng.choice([0, 0, 1, 2, 3]))
+        b, kind = eq_pair(rng, a)
+        if admit(gen_json(a), gen_json(b)):
+            pairs.append((gen_json(a), gen_json(b), a, b, kind))
     lines, meta = [], []
     for ci, (dt, pt, doc, prog, origin) in enumerate(cases):
         for m in MODES:
             lines.append("patch %s %s %s" % (m, hx(dt), hx(pt)))
             meta.append((ci, m))
+    npatch = len(lines)
+    for pi, (at, bt, a, b, kind) in enumerate(pairs):
+        lines.append("cmp %s %s" % (hx(at), hx(bt)))
+        meta.append((pi, "cmp"))
     out_i, crashes = run_robust(impl, lines)
     rc2, out_m, err2 = vlib.run_lines(model, "\n".join(lines) + "\n", timeout=600)
     if rc2 != 0 or len(out_m) < len(lines):
@@ -758,13 +1012,15 @@ def check(run):
     if mism:
         i = mism[0]
         ci, m = meta[i]
+        src = pairs if m == "cmp" else cases
         run.broken.append("T2 correspondence: %d of %d queries differ, first: mode %s doc `%s` patch `%s` impl=`%s` model=`%s`" % (
-            len(mism), len(lines), m, cases[ci][0][:200], cases[ci][1][:300], (out_i[i] if i < len(out_i) else None),
+            len(mism), len(lines), m, src[ci][0][:200], src[ci][1][:300], (out_i[i] if i < len(out_i) else None),
             (out_m[i] if i < len(out_m) else None)))
         if os.environ.get("VERIF_DEBUG"):
             for i in mism[:30]:
                 ci, m = meta[i]
-                print("MISMATCH mode %s doc `%s` patch `%s`\n   impl =`%s`\n   model=`%s`" % (m, cases[ci][0], cases[ci][1], out_i[i][:400], out_m[i][:400]))
+                src = pairs if m == "cmp" else cases
+                print("MISMATCH mode %s doc `%s` patch `%s`\n   impl =`%s`\n   model=`%s`" % (m, src[ci][0][:300], src[ci][1][:300], out_i[i][:400], out_m[i][:400]))
     # ---- ORACLE: RFC 6902 on the implementation's answers
     nviol = 0
     for ci, (dt, pt, doc, prog, origin) in enumerate(cases):
@@ -773,6 +1029,7 @@ def check(run):
         stopped_at = orc[2] if len(orc) > 2 else None
         opnames = "+".join(sorted(set(str(o.get("op", o.get("o", "?"))) if isinstance(o, dict) else "?" for o in prog))) if isinstance(prog, list) else "?"
         run.dist("result:" + kind)
+        run.dist("origin:" + origin)
         run.dist("len:%d" % (len(prog) if isinstance(prog, list) else 0))
         for o in (prog if isinstance(prog, list) else []):
             if isinstance(o, dict):
@@ -787,6 +1044,8 @@ def check(run):
                 continue
             o = out_i[i]
             rep = {"kind": "patch", "mode": m, "doc": dt, "patch": pt, "impl": o, "oracle": kind}
+            if open_class(dt, pt):
+                rep["class"] = open_class(dt, pt)
 
             def viol(why):
                 nonlocal nviol
@@ -832,19 +1091,46 @@ def check(run):
                 elif not binary and stopped_at is not None and not eq_unordered(got, stopped_at):
                     viol("a `test` operation fails (%s) but the tree is not the document as it was before that operation "
                          "(evaluation went on, or the test changed something): doc %s patch %s -> %s" % (exp, dt, pt, f["doc"]))
+    # ---- ORACLE for the direct comparisons: rfc6902 4.6 equality, in both argument orders
+    for pi, (at, bt, a, b, pkind) in enumerate(pairs):
+        i = npatch + pi
+        try:
+            exp = "eq=%d rev=%d" % ((1, 1) if rfc_eq(from_py(a), from_py(b)) else (0, 0))
+        except Lenient:
+            exp = None
+        run.dist("cmp:" + (pkind if exp is not None else "lenient"))
+        run.case("cmp|" + at + "|" + bt, nontrivial=True)
+        if i >= len(out_i) or out_i[i] == "SKIPPED" or exp is None:
+            continue
+        if out_i[i] != exp:
+            nviol += 1
+            rep = {"kind": "cmp", "mode": "cmp", "doc": at, "patch": bt, "impl": out_i[i], "oracle": exp}
+            if open_class(at, bt):
+                rep["class"] = open_class(at, bt)
+            if nviol <= 40:
+                run.violation(rep, "the equality used by `test` (jbn_compare_nodes == 0) differs from rfc6902 4.6: %s against %s -> %s, "
+                              "expected %s" % (at[:300], bt[:300], out_i[i], exp))
     return run.finish(level=LEVEL,
                       rule="(document, patch program) pairs: documents of depth <= 3 over a small key alphabet (escaped '/', '~', "
                            "numeric-looking keys, prefixes of one another), programs of 1-8 operations generated against the "
                            "expected document so that paths exist, 60% of the operations aimed at one array ('-', index = length, "
                            "length+1), from/path nested in either direction, failing test midway, 10% with non-RFC syntax; every pair "
                            "is applied through jbn_patch (struct), jbn_patch_auto, jbl_patch (struct) and jbl_patch_from_json; "
+                           "plus (origin:eq-*) documents holding a boundary value (int64 at 2^31/2^32/k*2^32/2^53/2^63 steps, doubles "
+                           "less than 1 / 2^32 apart / in exponent form, strings by last byte / length+256, members renamed or with "
+                           "exchanged values) at depth 0-4 with `test <near miss | same value reordered | 1 vs 1.0>` followed by a "
+                           "modifying operation; plus (cmp:*) such value pairs given to jbn_compare_nodes directly in both orders; "
                            "a case is one pair; distinct = distinct (document, patch) text",
                       assumptions=["oracle domain: patches the RFC applies or rejects; inputs the library reads more leniently than the "
                                    "RFC (iwatoi indices, '-' as last element, '/' as root, names by prefix) are only compared with the model "
                                    "and checked for 'failed => binary unchanged' (classes counted under result:lenient/unspecified)",
                                    "JSON texts use only syntax on which text parsing is not in question (no \\r, no control characters, "
                                    "doubles x.5) - text parsing is C13's subject",
-                                   "object member names are distinct (qsort order of equal keys in _jbl_compare_objects is unspecified)"])
+                                   "object member names are distinct (qsort order of equal keys in _jbl_compare_objects is unspecified)",
+                                   "doubles come from a fixed list whose JSON text iwstrtod reads exactly (it is not correctly rounded: "
+                                   "C13); classes on which the unmodified library is known to contradict rfc6902 4.6 are generated only "
+                                   "with VERIF_JPATCH_OPEN=all (notes/jpatch.md 'Open findings'): %s; enabled now: %s"
+                                   % (", ".join(OPEN_CLASSES), ", ".join(sorted(OPEN_ON)) or "none")])
 
 
 def replay(run, path):
@@ -854,7 +1140,9 @@ def replay(run, path):
         return 1
     variant = r.get("variant", "plain")
     impl = vlib.build_harness("h_jpatch", variant)
-    if r.get("kind") == "patch":
+    if r.get("kind") == "cmp":
+        line = "cmp %s %s" % (hx(r["doc"]), hx(r["patch"]))
+    elif r.get("kind") == "patch":
         line = "patch %s %s %s" % (r["mode"], hx(r["doc"]), hx(r["patch"]))
     elif r.get("kind") == "mpath":
         line = "mpath %s %s %s %s" % (r["mode"], hx(r["doc"]), hx(r["path"]), hx(r["val"]) if r.get("val") is not None else "-")
